@@ -39,9 +39,10 @@ Record c03_case := mkCase {
 Definition is_user (a : Z) : bool := a <? 1000.
 
 (* ------------------------------------------------------------------ correspondence *)
-(* the two handlers with a pending repair follow the REGENERATED table: once the msg server
-   compares the undelegation's owner with the sender / debits the signer, the repaired model is
-   the one that must correspond *)
+(* two handler models follow the REGENERATED table: ClaimUndelegation corresponds to the guarded
+   model as long as the msg server compares the undelegation's owner with the sender (a regression
+   makes the unguarded variant the corresponding one, and the monitor then reports the debit);
+   JoinDappVerifierWithBond corresponds to the repaired model once it debits the signer *)
 Definition sites_of (h : string) : list debit_site :=
   flat_map (fun e => if String.eqb (fst e) h then snd e else []) handlers.
 Definition claim_undelegation_guarded : bool :=
@@ -52,7 +53,7 @@ Definition join_verifier_debits_signer : bool :=
 
 Definition handler_of (n : Z) : option handler :=
   match n with
-  | 1 => Some (if claim_undelegation_guarded then h_claim_undelegation_fixed else h_claim_undelegation)
+  | 1 => Some (if claim_undelegation_guarded then h_claim_undelegation else h_claim_undelegation_unguarded)
   | 2 => Some h_claim_rewards
   | 3 => Some h_tip_request
   | 4 => Some h_tip_cancel
@@ -132,7 +133,7 @@ Definition bal_delta (c : c03_case) (a : Z) (d : string) : Z :=
 Definition custody_threshold (f : c03_fact) : bool :=
   match f with
   | FCustody _ _ _ _ legit n mode enabled pw_ok fresh =>
-      (if enabled && (0 <? n) then mode <=? (legit + (if fresh then 1 else 0)) * 100 / n else true) && pw_ok
+      (if enabled && (0 <? n) then mode * n <=? (legit + (if fresh then 1 else 0)) * 100 else true) && pw_ok
   | _ => false
   end.
 Definition custody_share (reward : coins) (n : Z) (d : string) : Z :=
